@@ -178,6 +178,9 @@ let () =
      | "variant" ->
         tagged := (nexti () <> 0); locked := (nexti () <> 0);
         out (Printf.sprintf "variant %d %d" (if !tagged then 1 else 0) (if !locked then 1 else 0)); flush_line ()
+     | "widths" ->
+        (* width in bytes of the generation fields (key table cell, tree slot): GEN_MOD = 2^32 *)
+        out (if !tagged then "widths 4 4" else "widths 0 0"); flush_line ()
      | "consts" ->
         out "consts"; Stdlib.List.iter (fun z -> out (" " ^ sz z)) (T.consts (cfg ())); flush_line ()
      | "tree" ->
@@ -198,6 +201,8 @@ let () =
                     (match T.get kgf !t k with Some v -> out (" v" ^ sz v) | None -> out " ASSERT")
            | 'b' -> let k = nexti () in
                     (if !tagged && valid k then kg.(k) <- (kg.(k) + 1) land 0xFFFFFFFF); out " b"
+           | 'r' -> let k = nexti () in let n = nexti () in
+                    (if !tagged && valid k then kg.(k) <- (kg.(k) + n) land 0xFFFFFFFF); out " b"
            | 'd' -> out " "; dump (!t).T.root
            | _ -> failwith "bad tree op")
         done;
@@ -207,10 +212,20 @@ let () =
         let ks = ref K.kinit and h = ref [] in
         out "keys";
         for _ = 1 to n do
-          let o = read_op () in
-          (match K.seq_op !tagged !ks !h o with
-           | Some ((k', h'), r) -> ks := k'; h := h'; out (" " ^ sz r)
-           | None -> out " OUTOFFUEL")
+          let o = next () in
+          if o.[0] = 'r' then begin
+            (* N create/delete cycles of the head index: the proved closed form (C10_cycles_closed_form) *)
+            let cnt = nexti () in let d = zs (next ()) in
+            let k = iz (!ks).K.kfree in
+            if not (valid k) then out " r-1"
+            else ((if cnt >= 1 then ks := K.cycle_n !tagged !ks d (zi cnt)); out (Printf.sprintf " r%dx%d" k cnt))
+          end else begin
+            let a = zs (next ()) in
+            let o = if o.[0] = 'c' then K.Create a else K.Delete a in
+            (match K.seq_op !tagged !ks !h o with
+             | Some ((k', h'), r) -> ks := k'; h := h'; out (" " ^ sz r)
+             | None -> out " OUTOFFUEL")
+          end
         done;
         out " "; dump_keys !ks; flush_line ()
      | "sys" ->
@@ -220,6 +235,13 @@ let () =
         out "sys";
         for _ = 1 to n do
           let o = next () in
+          if o.[0] = 'r' then begin
+            let cnt = nexti () in let d = zs (next ()) in
+            let k = iz (!s).S.sk.K.kfree in
+            if not (valid k) then out " r-1"
+            else ((if cnt >= 1 then s := { !s with S.sk = K.cycle_n !tagged (!s).S.sk d (zi cnt) });
+                  out (Printf.sprintf " r%dx%d" k cnt))
+          end else
           let sop = (match o.[0] with
             | 'c' -> S.KCreate (zs (next ()))
             | 'x' -> S.KDelete (zs (next ()))
